@@ -211,6 +211,15 @@ def _judge(modname, o, r: Result, known, prop):
                 # witness says "returns True" under CrossHair but the unshimmed code disagrees
                 if "raises" in (cm["call"].get("returns") or "") or "raises" in cm.get("message", "")[:40]:
                     reach_ok = True  # twin refuted via an exception path: main verdict decides
+                elif o.setorder and "distinct outputs over PYTHONHASHSEED" in str(rr.get("returns")):
+                    # the witness form itself converts to different bytes under different real hash
+                    # seeds: a violation demonstrated on the real code by the concrete replay (found by
+                    # the replay, not by the solver: the order-dependent set is outside the S8 model)
+                    r.status = "violation"
+                    r.detail = f"hash-seed replay of the witness form through convert(): {rr.get('returns')} (not found by the set-order model; demonstrated concretely)"
+                    r.replay = {"call": cm["call"], "result": rr, "message": "witness form is hash-seed dependent"}
+                    r.replay_path = _write_replay(prop, o, cm["call"], rr, {"message": r.detail})
+                    return
                 else:
                     reach_ok = False
                     r.detail = f"witness does not replay without shims: {cm['call']} -> {rr.get('returns')} {rr.get('exception')}"
